@@ -53,7 +53,7 @@ V_REQUIRES(g_nfds >= -1 && g_nfds <= 1000000 && g_psrc != NULL && V_RW_OK(g_psrc
 V_REQUIRES(g_mod->state == M_MOD_RUNNING && g_ctx->stats.recv_msgs < ((uint64_t)1 << 60) && !g_ctx->quit)
 V_REQUIRES(g_pe0 == g.pushevt_calls && g_pr0 == g.process_calls)
 V_ASSIGNS(g_errno, g.pw_calls, g.recv_calls, g.newevt_calls, g.process_calls, g.pushevt_calls, g.iterate_calls, g.fetch_calls, g.unref_calls, g.unref_arg, g.unref_arg_prev,
-          g_mod->state, g_ctx->stats.running_modules, g_ctx->quit, g_ctx->quit_code, g_ctx->stats.idle_time, g_ctx->stats.recv_msgs)
+          g_mod->state, g_ctx->stats.running_modules, g_ctx->quit, g_ctx->quit_code, g_ctx->stats.idle_time, g_ctx->stats.last_recv_time, g_ctx->stats.recv_msgs)
 /* poll itself succeeded (or was merely interrupted): whatever errno the handlers leave behind, every ready source of the batch is
  * consumed and handed over exactly once, as long as the module stays RUNNING */
 V_ENSURES(V_IMP(g_pw_errno == 0 && g_nfds >= 0 && g_mod->state == M_MOD_RUNNING, V_RET == g_nfds && g.pushevt_calls == g_pe0 + (size_t)g_nfds && g.process_calls == g_pr0 + (size_t)g_nfds))  /*@C03.no-event-of-the-batch-dropped-because-of-callback-errno*/
